@@ -1,4 +1,5 @@
 import SimbodyProofs.C19_lemmas
+import Mathlib.Algebra.Order.Ring.Unbundled.Rat
 /-!
 # C19 — property theorems: the step / report / final-time contract
 
@@ -87,8 +88,8 @@ theorem stepTo_refused_inv {o : Opts T} {report sched : T} {orc : List (Ans T)} 
   split at e
   · cases e
   · obtain ⟨hf, rfl⟩ := loop_refused _ _ _ _ e
-    obtain ⟨i1, i2, i3, i4, i5, i6, i7⟩ := hi
-    refine ⟨⟨?_, ?_, ?_, ?_, ?_, ?_, ?_⟩, ?_⟩ <;> simp_all [St.time]
+    obtain ⟨i1, i2, i3, i4, i5, i6, i7, i8⟩ := hi
+    refine ⟨⟨?_, ?_, ?_, ?_, ?_, ?_, ?_, ?_⟩, ?_⟩ <;> simp_all [St.time]
 
 /-- generic session lemma: whatever every single legal call guarantees holds along every legal session -/
 theorem session_all {o : Opts T} (P : Entry T → Prop)
@@ -173,7 +174,7 @@ theorem eos_once_then_refused (hi : Inv o s0) (hl : LegalRun o s0 ops) :
     have p := (stepTo_post hi hl h).eos q
     refine ⟨p.1, by simp [St.over, p.2.1], ?_⟩
     intro report sched orc
-    refine ⟨_, stepTo_refused report sched orc p.2.1 p.2.2, ?_, ?_, ?_⟩ <;> simp [St.over, St.time, p.2.1, p.2.2]) ops s0 hi hl
+    refine ⟨_, stepTo_refused report sched orc p.2.1 p.2.2.1, ?_, ?_, ?_⟩ <;> simp [St.over, St.time, p.2.1, p.2.2.1]) ops s0 hi hl
 
 /-- … so EndOfSimulation is returned at most once in any session in which no handler restarts a continuous
 interval (`reinitialize` with a lowered stage) — cf. notes/C19.md for what the code does in that case. -/
@@ -219,7 +220,7 @@ theorem eos_at_most_once (hi : Inv o s0) (hl : LegalRun o s0 ops)
         have p := stepTo_post hi hleg hst
         by_cases q : st = .endOfSimulation
         · have pe := p.eos q
-          simp [hdead ops s' pe.2.1 pe.2.2 hno', q]
+          simp [hdead ops s' pe.2.1 pe.2.2.1 hno', q]
         · simp only [List.filter_cons, q, decide_false]
           exact ih hno' p.inv hrest
       | refused s' =>
@@ -264,13 +265,134 @@ theorem window_excludes_report_of_stepping_call {report sched : T} {orc rest : L
 theorem interpolation_inside_last_step (hi : Inv o s0) (hl : LegalRun o s0 ops) :
     ∀ e ∈ trace o s0 ops, e.after.useInterp = true →
       e.after.tPrev ≤ e.after.tInterp ∧ e.after.tInterp ≤ e.after.tAdv :=
-  session_all _ (fun _ _ _ _ _ _ _ hi hl h => by
+  session_all _ (fun _ _ _ _ st _ _ hi hl h => by
     intro q
     have p := stepTo_post hi hl h
-    by_cases hf : _ = Status.endOfSimulation
+    by_cases hf : st = Status.endOfSimulation
     · have := (p.eos hf).2.2.2
       rw [this] at q; cases q
     · exact p.inv.interp (p.alive hf) q) ops s0 hi hl
 
+
+/-- `reinitialize` (issued as `TimeStepper` does, after an event-type return) never moves time backwards -/
+theorem reinit_time_mono {s : St T} (l t : Bool) (hi : Inv o s) :
+    s.time ≤ (reinit l t s).time := by
+  have h8 := hi.interp_hi
+  unfold reinit St.time
+  cases l <;> cases t <;> simp <;> split <;> simp_all
+
+/-- along a whole legal session — `stepTo` calls, refusals and `reinitialize` calls interleaved — the times
+handed out by successive returns never decrease, and none is earlier than the time at the start -/
+theorem time_monotone_session :
+    ∀ (ops : List (Op T)) (s0 : St T), Inv o s0 → LegalRun o s0 ops →
+      (∀ e ∈ trace o s0 ops, s0.time ≤ e.after.time) ∧
+      List.Pairwise (fun a b : Entry T => a.after.time ≤ b.after.time) (trace o s0 ops) := by
+  intro ops
+  induction ops with
+  | nil => intro s0 _ _; simp [trace]
+  | cons op ops ih =>
+    intro s0 hi hl
+    cases op with
+    | reinit l t =>
+      simp only [trace]; simp only [LegalRun] at hl
+      obtain ⟨h1, h2⟩ := ih _ (inv_reinit l t hi hl.1) hl.2
+      exact ⟨fun e he => le_trans (reinit_time_mono l t hi) (h1 e he), h2⟩
+    | step r sc orc =>
+      simp only [trace]; simp only [LegalRun] at hl
+      obtain ⟨hleg, hrest⟩ := hl
+      cases hst : stepTo o r sc orc s0 with
+      | ret st s' rest =>
+        rw [hst] at hrest
+        have p := stepTo_post hi hleg hst
+        obtain ⟨h1, h2⟩ := ih _ p.inv hrest
+        refine ⟨?_, ?_⟩
+        · intro e he
+          simp only [List.mem_cons] at he
+          rcases he with he | he
+          · subst he; exact p.mono
+          · exact le_trans p.mono (h1 e he)
+        · exact List.Pairwise.cons (fun e he => h1 e he) h2
+      | refused s' =>
+        rw [hst] at hrest
+        obtain ⟨q1, q2⟩ := stepTo_refused_inv hi hst
+        obtain ⟨h1, h2⟩ := ih _ q1 hrest
+        exact ⟨fun e he => by rw [← q2]; exact h1 e he, h2⟩
+      | starved s' => simp
+      | badOracle s' => simp
+
 end Properties
+
+/-! ## Transfer to the executable instantiation and non-vacuity -/
+
+/-- the driver runs the model at `T := Rat` with core Lean's order instances; Mathlib's `LinearOrder ℚ`
+(under which the theorems above apply) is built from exactly those, so it is the same function -/
+example (o : Opts Rat) (r sc : Rat) (orc : List (Ans Rat)) (s : St Rat) :
+    @stepTo Rat Rat.instLT Rat.instLE inferInstance inferInstance inferInstance o r sc orc s
+      = stepTo o r sc orc s := rfl
+
+/-- a concrete legal session over `ℕ` (final time 10): start, an interpolated report inside a step, the exact
+report at the end of the step, an internal step ending in an event that is first hidden behind a report and
+then revealed, a scheduled event, the final time, EndOfSimulation, and the refusal afterwards -/
+def demoOpts : Opts Nat := { finalTime := 10, returnEvery := false, stepLimit := 0, noInterp := false }
+def demoOps : List (Op Nat) :=
+  [ .step 2 100 [],                       -- StartOfContinuousInterval
+    .step 2 100 [⟨3, false, 0⟩],          -- ReachedReportTime, interpolated at 2 (advanced 3)
+    .step 3 100 [],                       -- ReachedReportTime exactly at 3
+    .step 4 100 [⟨7, true, 5⟩],           -- event window (5,7]; report 4 <= tLow is served first
+    .step 6 100 [],                       -- ReachedEventTrigger at tLow = 5   (report 6 lies inside (5,7) !)
+    .reinit true false,
+    .step 9 8 [],                         -- StartOfContinuousInterval at 7
+    .step 9 8 [⟨8, false, 0⟩],            -- ReachedScheduledEvent at 8
+    .step 20 100 [⟨10, false, 0⟩],        -- ReachedReportTime at the final time 10 (report 20 is beyond it)
+    .step 20 100 [],                      -- EndOfSimulation
+    .step 20 100 [] ]                     -- refused
+
+example : (trace demoOpts (init 0) demoOps).map (fun e => (e.st.code, e.after.time, e.after.tAdv)) =
+    [(7, 0, 0), (1, 2, 3), (1, 3, 3), (1, 4, 7), (2, 5, 7), (7, 7, 7), (3, 8, 8), (1, 10, 10), (6, 10, 10)] := by
+  decide +kernel
+
+/-- executable mirror of `LegalRun` (for the non-vacuity examples) -/
+def legalRunB (o : Opts T) : St T → List (Op T) → Bool
+  | _, [] => true
+  | s, .reinit l t :: ops => reinitOK s && legalRunB o (reinit l t s) ops
+  | s, .step r sc orc :: ops =>
+    legalReq r sc s &&
+    match stepTo o r sc orc s with
+    | .ret _ s' _ => legalRunB o s' ops
+    | .refused s' => legalRunB o s' ops
+    | _ => true
+
+theorem legalRunB_sound (o : Opts T) : ∀ (ops : List (Op T)) (s : St T), legalRunB o s ops = true → LegalRun o s ops := by
+  intro ops
+  induction ops with
+  | nil => intro s _; trivial
+  | cons op ops ih =>
+    intro s h
+    cases op with
+    | reinit l t =>
+      simp only [legalRunB, Bool.and_eq_true] at h
+      exact ⟨h.1, ih _ h.2⟩
+    | step r sc orc =>
+      simp only [legalRunB, Bool.and_eq_true] at h
+      obtain ⟨h1, h2⟩ := h
+      simp only [legalReq, Bool.and_eq_true, decide_eq_true_eq] at h1
+      refine ⟨⟨h1.1.1, h1.1.2, h1.2⟩, ?_⟩
+      cases hst : stepTo o r sc orc s with
+      | ret st s' rest => rw [hst] at h2; exact ih _ h2
+      | refused s' => rw [hst] at h2; exact ih _ h2
+      | starved s' => trivial
+      | badOracle s' => trivial
+
+example : LegalRun demoOpts (init 0) demoOps := legalRunB_sound _ _ _ (by decide +kernel)
+example : Inv demoOpts (init 0) := inv_init (by decide)
+
+/-- The clause "no report time ever lies strictly inside a reported event window" holds only for the report
+time that was pending when the internal step was taken.  A LEGAL later request (`report ≥ getTime()`) can
+place its report time strictly inside the window the integrator then reports — both in the model and in the
+implementation (harness key `*.stepTo.report_in_window`; see notes/C19.md). -/
+theorem report_inside_window_possible :
+    ∃ e ∈ trace demoOpts (init 0) demoOps, e.st = .reachedEventTrigger ∧
+      e.after.tLow < e.report ∧ e.report < e.after.tHigh := by
+  decide +kernel
+
 end C19
